@@ -49,6 +49,9 @@ def plan(tier):
     for i in range(n):
         descs.append({"kind": "random", "examples": per, "max_modules": 8 if tier == "quick" else 16, "max_ops": 30 if tier == "quick" else 50})
     descs.append({"kind": "lifetime"})
+    # one link switched on and off very many times (more freed slots than fit a byte) next to links that stay
+    for i in range(3):
+        descs.append({"kind": "churn", "variant": i})
     for i in range(2 if tier == "quick" else 8):
         descs.append({"kind": "random", "big": True, "wide": i % 2 == 1, "examples": 25 if tier == "quick" else 150, "max_modules": 8, "max_ops": 20})
     return descs
@@ -423,6 +426,9 @@ def run_shard(ctx, desc):
     if k == "lifetime":
         run_lifetime(ctx)
         return
+    if k == "churn":
+        run_churn(ctx, desc["variant"])
+        return
     if k == "dfs":
         firsts = [desc["first"]] if "first" in desc else list(range(*desc["first_range"]))
         run_dfs(ctx, desc["nodes"], desc["depth"], firsts)
@@ -441,6 +447,75 @@ def run_shard(ctx, desc):
             ctx.sample(case)
 
         run_property(ctx, op_list(desc["max_modules"], desc["max_ops"], big=desc.get("big", False), wide=desc.get("wide", False)), body, desc["examples"], tag="ops_big" if desc.get("big") else "ops")
+
+
+def run_churn(ctx, variant):
+    """a->b is requested and withdrawn k times while a->c, d->b (and, variant 2, b->a) stay; the tables are
+    examined after every request.  k passes 127/128/129, 255/256/257."""
+    from io import BytesIO
+
+    from rv.api import Project, m, read_sunvox_file
+
+    k = 300 if ctx.tier == "quick" else 700
+    p = Project()
+    types = [(m.Amplifier, m.Amplifier, m.Amplifier, m.Amplifier), (m.MultiCtl, m.Amplifier, m.Filter, m.MultiCtl), (m.Generator, m.MetaModule, m.Echo, m.Amplifier)][variant]
+    a, b, c, d = [p.new_module(cls) for cls in types]
+    E = set()
+    rec = {"op": "churn", "variant": variant}
+
+    def req(x, y, dis=False):
+        if dis:
+            x >> ~y
+            E.discard((x.index, y.index))
+        else:
+            x >> y
+            E.add((x.index, y.index))
+
+    try:
+        req(a, c)
+        req(d, b)
+        if variant == 2:
+            req(b, a)
+        req(c, p.output)
+        for i in range(k):
+            ctx.case()
+            req(a, b)
+            lm.check_consistency(p, E)
+            if i == 5:
+                # a link made in between stays: it sits behind freed slots from now on
+                req(a, d)
+            if i == 9 and variant != 1:
+                req(c, b)
+            if i % 50 == 7:
+                # the user saves now and then; a copy loaded from that file is consistent as well
+                q = read_sunvox_file(BytesIO(p.read()))
+                lm.check_consistency(q, set(E))
+            req(a, b, dis=True)
+            lm.check_consistency(p, E)
+            if variant == 1 and i % 2:
+                # the withdrawn request comes from the other side every other time
+                b << a
+                E.add((a.index, b.index))
+                lm.check_consistency(p, E)
+                b << ~a
+                E.discard((a.index, b.index))
+                lm.check_consistency(p, E)
+        req(a, b)
+        lm.check_consistency(p, E)
+        q = read_sunvox_file(BytesIO(p.read()))
+        lm.check_consistency(q, set(E))
+        ctx.mark_nontrivial(rec)
+        ctx.label("one_link_toggled_more_than_256_times")
+    except PropertyViolation as v:
+        ctx.check(False, v.sub_oracle, "churn variant %d, after %d requests: %s" % (variant, ctx.evaluations, v.detail), key=v.key, recipe=rec)
+    except Exception as e:  # noqa: BLE001
+        from vlib.harness import as_violation
+
+        v = as_violation(e, "C07", "churn")
+        if v is None:
+            raise
+        ctx.check(False, v.sub_oracle, "churn variant %d: %s" % (variant, v.detail), key=v.key, recipe=rec)
+    ctx.sample(rec)
 
 
 def run_lifetime(ctx):
@@ -506,6 +581,14 @@ def replay(ctx, doc):
 
         c2 = Ctx(ctx.prop, ctx.tier, ctx.seed, 0, 1, [])
         run_lifetime(c2)
+        if c2.failures:
+            raise PropertyViolation(c2.failures[0]["sub_oracle"], c2.failures[0]["detail"], c2.failures[0]["key"])
+        return
+    if r.get("op") == "churn":
+        from vlib.harness import Ctx
+
+        c2 = Ctx(ctx.prop, ctx.tier, ctx.seed, 0, 1, [])
+        run_churn(c2, r["variant"])
         if c2.failures:
             raise PropertyViolation(c2.failures[0]["sub_oracle"], c2.failures[0]["detail"], c2.failures[0]["key"])
         return
